@@ -1073,6 +1073,25 @@ def systematic_scripts() -> list[tuple[list[list], dict, str]]:
             out.append((prefix + [ev] + TAIL, {'attempts': 2, 'routes': 1}, f'attempts2/{stage}/{ev[0]}'))
         for ev in [['teardown', 2], ['reestablish'], ['stop']]:
             out.append((prefix + [ev] + TAIL, {'graceful': True}, f'graceful/{stage}/{ev[0]}'))
+    # graceful-restart configured: the one thing it changes is that an API teardown closes without a NOTIFICATION; every
+    # error of the peer and every timer is answered exactly as without it
+    for stage in ('opensent', 'openconfirm', 'established'):
+        prefix, c = STAGES[stage]
+        for ev in alphabet(c):
+            if ev[0] in ('teardown', 'reestablish', 'stop', 'apiDies', 'start', 'connectOk', 'connectFail', 'queueRefresh', 'announce', 'tick'):
+                continue
+            cfg = {'graceful': True, 'routes': 1}
+            if ev[0] == 'holdExpired':
+                cfg['hold'] = 9
+            out.append((prefix + [ev] + TAIL, cfg, f'graceful-errors/{stage}/{ev[0]}' + (f':{ev[2]}' if ev[0] == 'recv' else '')))
+    # three connections of one peer: one that ends before the session is announced, a session that is announced and
+    # ends, a third session — whatever the peer object counts or remembers across connections, every `up` has its `down`
+    firsts = [[['recv', 1, 'open'], ['eof', 1]], [['recv', 1, 'notification']], [['recv', 1, 'openAs']], [['eof', 1]], [['recv', 1, 'open'], ['recv', 1, 'badMarker']], [['sockError', 1]], [['openwaitExpired']]]
+    ends = [[['eof', 2]], [['teardown', 2], ['tick']], [['recv', 2, 'notification']], [['holdExpired']], [['recv', 2, 'badLength']]]
+    for fi, first in enumerate(firsts):
+        for ei, end in enumerate(ends):
+            script = [['start'], ['connectOk']] + first + [['tick'], ['start'], ['connectOk'], ['recv', 2, 'open'], ['recv', 2, 'keepalive'], ['tick']] + end + [['tick'], ['start'], ['connectOk'], ['recv', 3, 'open'], ['recv', 3, 'keepalive'], ['tick'], ['eof', 3], ['tick']]
+            out.append((script, {'hold': 9, 'routes': 1}, f'three-connections/{fi}/{ei}'))
     # the API process dies: every event at the main stages, for each combination of the api options
     for stage in ('backoff', 'connecting', 'adopted-idle', 'opensent', 'openconfirm', 'established-fresh', 'established'):
         prefix, c = STAGES[stage]
